@@ -711,7 +711,7 @@ Section MLE1.
   Proof.
     unfold p_lin, p_lin_of. rewrite a_rows_1. change (4 ^ 1 * 4 ^ 1)%nat with 16. change (4 ^ 1)%nat with 4.
     unfold mle_inputs. cbn [flat_map map app].
-    repeat (f_equal; [apply mle_forward_row; simpl; tauto|]). reflexivity.
+    repeat (f_equal; [apply mle_forward_row; simpl; tauto|]). f_equal. apply mle_forward_row; simpl; tauto.
   Qed.
 
   Theorem mle_forward_model_pinned (V : @mat K) :
@@ -720,131 +720,7 @@ Section MLE1.
   Proof.
     unfold p_lin_of. rewrite a_rows_pinned_1. change (4 ^ 1 * 4 ^ 1)%nat with 16. change (4 ^ 1)%nat with 4.
     unfold mle_inputs. cbn [flat_map map app].
-    repeat (f_equal; [apply mle_forward_row_pinned; simpl; tauto|]). reflexivity.
+    repeat (f_equal; [apply mle_forward_row_pinned; simpl; tauto|]). f_equal. apply mle_forward_row_pinned; simpl; tauto.
   Qed.
 End MLE1.
 
-Section Grad.
-  Context {K : Type} (o : ops K) (ii : K).
-  (* Hilbert-Schmidt inner product <G, D> = tr(G^+ D) on DxD matrices *)
-  Definition hs_inner (D : nat) (G Dm : @mat K) : K :=
-    sumn o D (fun r => sumn o D (fun c => kmul o (kconj o (G r c)) (Dm r c))).
-  (* weights n_k / p_k(choi) of _gradient, for a given A matrix *)
-  Definition grad_weights (rows : list (nat -> K)) (n : nat) (choi : @mat K) (n_vec : list K) : list K :=
-    map (fun np => kmul o (fst np) (kinv o (snd np))) (combine n_vec (p_vec_of o rows n choi)).
-  (* derivative at t = 0 of  -sum_k n_k log p_k(choi + t Dm)  with p = the model's forward
-     map: p_k(choi + t Dm) = p_k(choi) + t p_lin(Dm)_k (lemma p_lin_linear), so the derivative
-     is  -sum_k (n_k / p_k(choi)) * p_lin(Dm)_k   (where no p_k is clipped) *)
-  Definition dir_deriv_of (rows : list (nat -> K)) (n : nat) (choi : @mat K) (n_vec : list K) (Dm : @mat K) : K :=
-    kopp o (suml o (combine (grad_weights rows n choi n_vec) (p_lin_of o rows n Dm))
-                 (fun wp => kmul o (fst wp) (snd wp))).
-  Definition dir_deriv (n : nat) := dir_deriv_of (a_rows o ii n) n.
-  Definition dir_deriv_pinned (n : nat) := dir_deriv_of (a_rows_pinned o ii n) n.
-  (* a row of the A matrix as a D x D matrix *)
-  Definition row_mat (D : nat) (row : nat -> K) : @mat K := unvec o D row.
-End Grad.
-
-Section GradLemmas.
-  Context {K : Type} {o : ops K} {SR : StarRing o} (ii : K).
-  Let R := sr_ring (o:=o).
-  Add Ring Kgl : R.
-  Local Notation "a + b" := (kadd o a b).
-  Local Notation "a * b" := (kmul o a b).
-  Local Notation "- a" := (kopp o a).
-  Local Notation sumn := (sumn o).
-  Local Notation suml := (suml o).
-
-  (* the forward model is linear in the Choi matrix: p(A + t B) = p(A) + t p(B) *)
-  Lemma p_lin_of_linear rows n (A B : @mat K) (t : K) :
-    p_lin_of o rows n (fun i j => A i j + t * B i j)
-    = map (fun ab => fst ab + t * snd ab) (combine (p_lin_of o rows n A) (p_lin_of o rows n B)).
-  Proof.
-    unfold p_lin_of. rewrite combine_map, map_map. apply map_ext. intros row. cbn [fst snd].
-    rewrite <- sumn_mul_l, <- sumn_add. apply sumn_ext. intros x _. unfold vec, mtrans. ring.
-  Qed.
-  Lemma p_lin_linear n (A B : @mat K) (t : K) :
-    p_lin o ii n (fun i j => A i j + t * B i j)
-    = map (fun ab => fst ab + t * snd ab) (combine (p_lin o ii n A) (p_lin o ii n B)).
-  Proof. apply p_lin_of_linear. Qed.
-
-  Lemma div_mod_block' D r c : c < D -> (r * D + c) / D = r /\ (r * D + c) mod D = c.
-  Proof.
-    intros Hc. split.
-    - rewrite Nat.div_add_l by lia. rewrite Nat.div_small by lia. lia.
-    - rewrite Nat.add_comm, Nat.mod_add by lia. apply Nat.mod_small. lia.
-  Qed.
-
-  (* p_lin(Dm)_k = tr(R_k Dm) with R_k the k-th row of the A matrix as a matrix *)
-  Lemma p_lin_of_trace rows n (Dm : @mat K) :
-    p_lin_of o rows n Dm = map (fun row => trace o (4 ^ n) (mmul o (4 ^ n) (row_mat o (4 ^ n) row) Dm)) rows.
-  Proof.
-    unfold p_lin_of. apply map_ext. intros row. rewrite sumn_prod. unfold trace, mmul.
-    apply sumn_ext. intros r Hr. apply sumn_ext. intros c Hc.
-    unfold vec, mtrans, row_mat, unvec. destruct (div_mod_block' (4 ^ n) r c Hc) as [-> ->]. reflexivity.
-  Qed.
-
-  Lemma suml_combine_map {A B} (f : A -> K) (l : list A) (w : list B) (g : A * B -> K) (h : K * B -> K) :
-    (forall a b, g (a, b) = h (f a, b)) ->
-    suml (combine l w) g = suml (combine (map f l) w) h.
-  Proof.
-    intros H. revert w. induction l as [|a l IH]; intros [|b w]; simpl; try reflexivity.
-    rewrite IH, H. reflexivity.
-  Qed.
-  Lemma suml_combine_swap {A B} (l : list A) (w : list B) (g : A * B -> K) :
-    suml (combine l w) g = suml (combine w l) (fun ba => g (snd ba, fst ba)).
-  Proof.
-    revert w. induction l as [|a l IH]; intros [|b w]; simpl; try reflexivity. rewrite IH. reflexivity.
-  Qed.
-
-  (* the matrix a gradient routine returns from the rows and the weights: G = - sum_k w_k R_k *)
-  Lemma gradient_of_rows D (rows : list (nat -> K)) (w : list K) r c :
-    unvec o D (fun x => - suml (combine rows w) (fun rw => fst rw x * snd rw)) r c
-    = - suml (combine rows w) (fun rw => snd rw * row_mat o D (fst rw) r c).
-  Proof. unfold unvec, row_mat, unvec. f_equal. apply suml_ext. intros [row wk] _. cbn [fst snd]. ring. Qed.
-
-  (* tr(G Dm) with G = - sum_k w_k R_k is - sum_k w_k tr(R_k Dm) *)
-  Lemma trace_gradient_of_rows D (rows : list (nat -> K)) (w : list K) (Dm : @mat K) :
-    trace o D (mmul o D (unvec o D (fun x => - suml (combine rows w) (fun rw => fst rw x * snd rw))) Dm)
-    = - suml (combine w (map (fun row => trace o D (mmul o D (row_mat o D row) Dm)) rows))
-             (fun wp => fst wp * snd wp).
-  Proof.
-    rewrite (suml_combine_swap w).
-    rewrite <- (suml_combine_map (fun row => trace o D (mmul o D (row_mat o D row) Dm)) rows w
-                 (fun rw => snd rw * trace o D (mmul o D (row_mat o D (fst rw)) Dm))) by (intros; reflexivity).
-    unfold trace, mmul.
-    rewrite (sumn_ext D _ (fun k => - sumn D (fun k0 =>
-               suml (combine rows w) (fun rw => snd rw * (row_mat o D (fst rw) k k0 * Dm k0 k))))).
-    2:{ intros k _. transitivity (sumn D (fun k0 => - suml (combine rows w) (fun rw => snd rw * (row_mat o D (fst rw) k k0 * Dm k0 k)))).
-        - apply sumn_ext. intros k0 _. rewrite gradient_of_rows.
-          transitivity (- (suml (combine rows w) (fun rw => snd rw * row_mat o D (fst rw) k k0) * Dm k0 k)); [ring|].
-          rewrite <- suml_mul_r. f_equal. apply suml_ext. intros; ring.
-        - transitivity (sumn D (fun k0 => (- k1 o) * suml (combine rows w) (fun rw => snd rw * (row_mat o D (fst rw) k k0 * Dm k0 k)))).
-          + apply sumn_ext; intros; ring.
-          + rewrite sumn_mul_l. ring. }
-    transitivity (- sumn D (fun k => sumn D (fun k0 => suml (combine rows w) (fun rw => snd rw * (row_mat o D (fst rw) k k0 * Dm k0 k))))).
-    { transitivity (sumn D (fun k => (- k1 o) * sumn D (fun k0 => suml (combine rows w) (fun rw => snd rw * (row_mat o D (fst rw) k k0 * Dm k0 k))))).
-      - apply sumn_ext; intros; ring.
-      - rewrite sumn_mul_l. ring. }
-    f_equal.
-    rewrite (sumn_ext D _ (fun k => suml (combine rows w) (fun rw => sumn D (fun k0 => snd rw * (row_mat o D (fst rw) k k0 * Dm k0 k)))))
-      by (intros; symmetry; apply suml_sumn_swap).
-    rewrite <- suml_sumn_swap. apply suml_ext. intros [row wk] _. cbn [fst snd].
-    rewrite <- sumn_mul_l. apply sumn_ext. intros k _. rewrite <- sumn_mul_l. reflexivity.
-  Qed.
-
-  (* THE GRADIENT IDENTITY of the repaired code, every n, every choi, data and direction:
-     tr(G Dm) is the directional derivative of the cost along Dm (this is also the quantity
-     the line search of pgdb uses) *)
-  Theorem gradient_is_derivative n (choi : @mat K) (n_vec : list K) (Dm : @mat K) :
-    trace o (4 ^ n) (mmul o (4 ^ n) (gradient o ii n choi n_vec) Dm) = dir_deriv o ii n choi n_vec Dm.
-  Proof.
-    unfold gradient, dir_deriv, dir_deriv_of. rewrite trace_gradient_of_rows, p_lin_of_trace. reflexivity.
-  Qed.
-
-  (* G = - sum_k w_k R_k *)
-  Theorem gradient_sum_of_rows n (choi : @mat K) (n_vec : list K) r c :
-    gradient o ii n choi n_vec r c
-    = - suml (combine (a_rows o ii n) (grad_weights o (a_rows o ii n) n choi n_vec))
-             (fun rw => snd rw * row_mat o (4 ^ n) (fst rw) r c).
-  Proof. unfold gradient. rewrite gradient_of_rows. reflexivity. Qed.
-End GradLemmas.
